@@ -4,7 +4,7 @@ Events: every `mesh.refined(index array)` (and, inside histories, `mesh.refined(
 workload; the postcondition oracle runs on (snapshot of the parent, returned child).
 
 Oracle (rv.refmodel.c13_refine.StepOracle): the parent of every child cell is found geometrically
-(exact integer arithmetic on the dyadic coordinates, tolerance 1e-12 h otherwise, counted) and each
+(exact integer arithmetic on dyadic coordinates of any scale / offset, tolerance 1e-12 h otherwise, counted) and each
 clause of the statement is decided from (parent p, t, tags) and (child p, t, tags) alone:
 
   valid-mesh                       shapes, integer cells in range, every vertex used, library is_valid()
@@ -42,11 +42,19 @@ PID = "C13"
 RULE = ("(a) EXHAUSTIVE: all 2^n marked subsets (incl. empty and full) of directed and seeded tiny meshes with n <= 8 "
         "cells (triangles, tetrahedra, segments; renumbered / locally permuted / tagged), followed by all subsets of "
         "every child that still has <= 8 cells (two-step histories) up to a per-case cap; (b) random marked subsets "
-        "(single, few, half, all-but-one, all, empty; int32/int64/uint, unsorted, list, read-only, strided) of random "
+        "(single, few, half, all-but-one, all, empty; int16/int32/int64/uint8/uint32, unsorted, list, tuple, range, "
+        "one-column 2-D, read-only, strided, np.nonzero of a read-only mask, the mesh's own subdomain array) of random "
         "Delaunay/tensor/L-shaped/holed/anisotropic meshes with random subdomain and boundary tags; (c) histories of "
         "up to 12 mixed adaptive/uniform steps with marking by random sets, point singularities, adaptive_theta and "
         "named subdomains; (d) straight MeshTri2/MeshTet2; (e) rotated / 1/3-scaled and docs meshes in tolerance "
-        "mode. Key = (mesh class, |marked| class, step index); non-trivial iff the marked set is neither empty nor "
+        "mode; (f) each of (a)-(c), (e), adaptive_theta-driven and uniform steps once more on parents carrying a point "
+        "that no cell uses (trailing / interior index); (g) MeshTri1 parents with sort_t=False (random local vertex "
+        "order per cell, oriented()): all subsets of all tiny meshes with two-step histories, plus (b), (c), (e); "
+        "(h) (a)-(c) on parents scaled by 2^-30 or translated by +-2^20..2^24 on every axis (needle tetrahedra "
+        "included), exact oracle; (i) 30-40 consecutive steps towards one point (all cells at the point / the one "
+        "corner cell in a fixed direction / an edge midpoint) down to cells of 2^-30 h, exact oracle; (j) "
+        "adaptive_theta on list / tuple / float32 / integer / one-column / read-only estimators and on the output of "
+        "Functional.elemental, theta as int, max=0, its raw output driving a refinement. Key = (mesh class, |marked| class, step index); non-trivial iff the marked set is neither empty nor "
         "everything.")
 TRACK = ["skfem.mesh.mesh_tri_1:MeshTri1._adaptive", "skfem.mesh.mesh_tri_1:MeshTri1._adaptive_sort_mesh",
          "skfem.mesh.mesh_tri_1:MeshTri1._adaptive_find_facets",
@@ -66,18 +74,58 @@ REQUIRED_REACH = ["tri-template-red", "tri-template-blue1", "tri-template-blue2"
                   "tolerance-mode-steps", "history-steps>=8", "history-mixed-adaptive-uniform",
                   "uniform-step-in-history", "line-adaptive-steps", "second-order-adaptive-steps",
                   "parent-reused-after-adaptive", "empty-marked-set-in-every-container"]
+REQUIRED_REACH += ["marked-container:" + f for f in ("tuple", "tuple-of-numpy-scalars", "column-2d", "int16", "uint8",
+                                                      "range", "nonzero-of-read-only-mask",
+                                                      "own-subdomain-array-object")]
+REQUIRED_REACH += ["theta-input-form:" + f for f in ("list", "float32", "column-2d", "int64", "read-only")]
+REQUIRED_REACH += ["theta-estimator-from-Functional.elemental", "theta-output-refined:column-2d"]
+REQUIRED_REACH += ["parent-scaled-2^-30", "parent-shifted-2^>=20"]
+REQUIRED_REACH += ["deep-history-steps>=25", "deep-history-smallest-cell<=2^-20h:tri",
+                   "deep-history-smallest-cell<=2^-20h:line", "deep-history-smallest-cell<=2^-10h:tet"]
+REQUIRED_REACH += ["unsorted-triangle-parent:adaptive", "unsorted-triangle-parent:uniform",
+                   "parent-with-unsorted-cells:permuted", "parent-with-unsorted-cells:oriented"]
+REQUIRED_REACH += [f"unused-{w}-vertex:{h}:{c}" for w in ("trailing", "interior") for h in ("adaptive", "uniform")
+                   for c in ("MeshLine1", "MeshTri1", "MeshTet1")]
 ASSUMPTIONS = [
     "input meshes are conforming, non-degenerate and straight-sided (generators; quality floor 2^-10, except the deliberately thin 'needle' tetrahedra)",
-    "marked sets are sets of valid cell indices, passed as ndarray or list in any order, possibly listing a cell twice",
-    "exact mode: all coordinates are multiples of 2^-45 with |x| <= 64, so the library's midpoints are exact; "
-    "otherwise tolerance 1e-12*h + 16 ulp(max|x|) (steps counted under reach tolerance-mode-steps)",
+    "marked sets are sets of valid cell indices, passed as integer ndarray (any integer dtype, 1-D or one column), "
+    "list, tuple or range, in any order, possibly listing a cell twice; boolean masks, floats, sets and a bare "
+    "NumPy scalar are not judged",
+    "exact mode: the parent's coordinates, in units of their own coarsest power-of-two grid, are below 2^52 (any scale, "
+    "any offset), so the midpoints a correct library computes are exact doubles; otherwise tolerance 1e-12*h + "
+    "16 ulp(max|x|) (steps counted under reach tolerance-mode-steps)",
+    "REPORT_ONLY lists mechanisms of library defects found by the 'scales' workload and reported, not yet decided: "
+    "MeshTet1 adaptive steps on parents where the library's absolute 1e-10 tie-break noise is rounded away "
+    "(|x| >= 2^16) or dominant (edges <= 1.6e-6) that end in the library's duplicate-point assertion, in a closure "
+    "of more than TET_MAX_ROUNDS rounds, or (rounded away + exactly tied longest edges) in a non-conforming child "
+    "are counted under reach 'report-only:*' instead of failing the run",
+    "adaptive_theta is judged on finite non-negative estimators with a positive entry, given as float64/float32/"
+    "integer ndarray (1-D or one column), read-only view, or (max=None only) Python list / tuple; theta in [0, 1] "
+    "as float or int; max >= 0; entries within 4 ulp (of the estimator's dtype) of theta*max may fall on either side; "
+    "NaN, negative and empty estimators are not judged",
     "named boundaries are not mentioned by the statement; they are judged as part of 'valid mesh': either dropped "
     "with the logged warning or designating exactly the child facets inside the tagged parent facets",
     "reach points for templates / worklist rounds are read by harness-side wrappers on "
     "MeshTri1._adaptive_split_elements and MeshTet1._adaptive_sort_mesh (evidence only, never an oracle)",
 ]
 
-OBS = {"tet_rounds": 0, "tri": None}
+OBS = {"tet_rounds": 0, "tri": None, "nt0": 1, "regime": 0}
+
+# Genuine library defects found by a strengthened workload, reported to the maintainers of the harness but not yet
+# decided (fix or known finding): witnesses of exactly these mechanisms are counted (reach 'report-only:<mech>',
+# tolerated['valid-mesh']) instead of failing the run.  Everything else stays a violation.
+REPORT_ONLY = set()      # (the defects it held were repaired in the library: cd67d70, d8cb789)
+# worklist rounds of ONE MeshTet1._adaptive call / its cell buffer relative to the initial 8 nt, (at regular scale,
+# in the regimes of tet_noise_regime).  Observed on successful calls: <= 49 rounds (deep graded histories), cells
+# after / before < 16; runaways in the regimes: 110-170 rounds before they end in garbage or in the assertion.
+TET_MAX_ROUNDS = (400, 100)
+TET_MAX_GROWTH = (2048, 128)
+
+
+class ClosureRunaway(Exception):
+    """Raised by the harness-side wrapper of MeshTet1._adaptive_sort_mesh when one adaptive call has gone
+    through more than TET_MAX_ROUNDS worklist rounds or holds more than TET_MAX_GROWTH times its initial cell buffer:
+    the explicit predicate for 'the conformity closure does not terminate'."""
 
 
 # ------------------------------------------------------------------ attachment
@@ -110,6 +158,10 @@ def setup(ctx):
 
         def sort_mesh(self, p, t, marked):
             OBS["tet_rounds"] += 1
+            if (OBS["tet_rounds"] > TET_MAX_ROUNDS[OBS["regime"]]
+                    or t.shape[1] > TET_MAX_GROWTH[OBS["regime"]] * 8 * OBS["nt0"]):
+                raise ClosureRunaway("rounds=%d buffer_cells=%d parent_cells=%d"
+                                     % (OBS["tet_rounds"], t.shape[1], OBS["nt0"]))
             return orig_sort(self, p, t, marked)
         MeshTet1._adaptive_sort_mesh = sort_mesh
     except (KeyError, AttributeError):
@@ -136,6 +188,8 @@ def call_refined(mesh, arg):
     lg.propagate = False
     OBS["tet_rounds"] = 0
     OBS["tri"] = None
+    OBS["nt0"] = max(1, int(mesh.t.shape[1]))
+    OBS["regime"] = int(tet_noise_regime(mesh) is not None)
     try:
         child = mesh.refined(arg)
     finally:
@@ -170,6 +224,16 @@ class Snap:
         used = np.zeros(nv, dtype=bool)
         used[self.t.ravel()] = True
         self.all_used = bool(used.all())
+        self.noise_regime = tet_noise_regime(mesh)
+        # cells the class did not sort (MeshTri1 sorts unless sort_t=False; the other classes never sort)
+        self.unsorted = bool(self.cls == "MeshTri1" and not getattr(mesh, "sort_t", True)
+                             and (np.diff(self.t, axis=0) < 0).any())
+        # where the vertices no cell uses sit: after all used ones ("trailing": max(t) + 1 < number of points) and /
+        # or between them ("interior")
+        un = np.nonzero(~used)[0]
+        self.unused_where = ([] if not un.size else
+                             (["trailing"] if un.max() > self.t.max() else []) +
+                             (["interior"] if un.min() < self.t.max() else []))
 
 
 def facet_dict(t):
@@ -194,6 +258,31 @@ def marked_class(nm, nt):
 
 
 # ----------------------------------------------------------------------- oracle
+def gated(ctx, monitor, cond, mech, hit, **detail):
+    """ctx.check, except that a failure whose mechanism is listed in REPORT_ONLY is counted instead of recorded
+    (`hit` collects the mechanisms so that the caller can stop a history there)."""
+    if not cond:
+        m = mech() if callable(mech) else mech
+        if m in REPORT_ONLY:
+            ctx.ok(monitor)
+            ctx.tolerated(monitor)
+            ctx.reached("report-only:" + m)
+            ctx.notes.setdefault("report_only:" + m, {"case": repr(detail.get("case"))[:600],
+                                                      "marked": repr(detail.get("marked"))[:200]})
+            hit.append(m)
+            return False
+        mech = m
+    return ctx.check(monitor, cond, mech=mech, **detail)
+
+
+def tied_longest_edges(X, t):
+    """Cells (columns of t) whose two longest edges have exactly the same length (X: integer or float coords)."""
+    import itertools
+    L = [((X[:, t[i]] - X[:, t[j]]) ** 2).sum(axis=0) for i, j in itertools.combinations(range(t.shape[0]), 2)]
+    L = np.sort(np.stack(L), axis=0)
+    return np.nonzero(np.asarray(L[-1] == L[-2], dtype=bool))[0]
+
+
 def check_step(ctx, par: Snap, child, marked, records, desc, step=0, light=False):
     """Evaluate every clause for one step.  `marked` = sorted unique int array, or None for a uniform
     step.  Returns the StepOracle (or None when the child cannot be analysed / continued)."""
@@ -203,6 +292,26 @@ def check_step(ctx, par: Snap, child, marked, records, desc, step=0, light=False
 
     def mech(clause):
         return f"{clause}:{how}:{cls}"
+
+    report_only_hit = []
+    tet_rounds = OBS["tet_rounds"]
+
+    def geom_mech(clause):
+        # a closure that did end by itself, but only after bisecting down towards the rounding level of the
+        # coordinates (inexact midpoints: degenerate / misplaced cells), in the regimes of tet_noise_regime
+        if marked is not None and cls in ("MeshTet1", "MeshTet2") and par.noise_regime and tet_rounds > 50:
+            return "tet-adaptive-tie-break-noise-is-absolute-1e-10:closure-runaway"
+        return mech(clause)
+
+    def conformity_mech(clause):
+        # the one recorded way in which correct single bisections add up to a non-conforming mesh: neighbours
+        # bisecting different ones of several exactly equally long edges, in the regime where the library's
+        # absolute tie-break noise is not visible in the coordinates (all other clauses of this step are judged
+        # as everywhere else)
+        if (marked is not None and cls in ("MeshTet1", "MeshTet2") and par.noise_regime == "rounded-away"
+                and (tied_longest_edges(orc.Xp, par.t).size or tied_longest_edges(orc.Xc, tc).size)):
+            return "tet-adaptive-tie-break-noise-is-absolute-1e-10:non-conforming-child"
+        return mech(clause)
 
     ctx.check("valid-mesh", type(child).__name__ == cls, mech=mech("class-changed"), case=desc,
               got=type(child).__name__)
@@ -229,9 +338,15 @@ def check_step(ctx, par: Snap, child, marked, records, desc, step=0, light=False
     else:
         # PITFALL: Mesh.load of a mixed file (docs/examples/meshes/mixedtriquad.msh) yields a MeshTri1 that
         # keeps the quadrilaterals' vertices: the parent already has unused vertices, the child inherits them.
+        # Only vertices the step itself created and left unused are judged.
         ctx.drop("parent-has-unused-vertices")
+        fresh = np.nonzero(~used[par.P.shape[1]:])[0] + par.P.shape[1]
+        ctx.check("valid-mesh", fresh.size == 0, mech=mech("new-unused-vertex"), case=desc, unused=lambda: fresh[:8])
+        for where in par.unused_where:
+            ctx.reached(f"unused-{where}-vertex:{how}:{cls}")
     if par.lib_valid:
-        ctx.check("valid-mesh", bool(child.is_valid()), mech=mech("is_valid-false"), case=desc)
+        gated(ctx, "valid-mesh", bool(child.is_valid()), lambda: geom_mech("is_valid-false"), report_only_hit,
+              case=desc, marked=marked)
 
     nvp = par.P.shape[1]
     ctx.check("old-vertices-keep-indices",
@@ -241,22 +356,23 @@ def check_step(ctx, par: Snap, child, marked, records, desc, step=0, light=False
     orc = R.StepOracle(par.P, par.t, Pc, tc)
     ctx.reached("exact-mode-steps" if orc.exact else "tolerance-mode-steps")
     dup = orc.duplicate_vertices()
-    ctx.check("no-duplicate-vertices", not dup, mech=mech("duplicate-vertices"), case=desc, pairs=dup[:5])
+    gated(ctx, "no-duplicate-vertices", not dup, lambda: geom_mech("duplicate-vertices"), report_only_hit,
+          case=desc, marked=marked, pairs=dup[:5])
     deg = orc.degenerate_children()
-    ok_deg = ctx.check("no-degenerate-cells", deg.size == 0, mech=mech("degenerate-cell"), case=desc,
-                       cells=lambda: deg[:8], verts=lambda: tc[:, deg[:3]])
+    ok_deg = gated(ctx, "no-degenerate-cells", deg.size == 0, lambda: geom_mech("degenerate-cell"), report_only_hit,
+                   case=desc, marked=marked, cells=lambda: deg[:8], verts=lambda: tc[:, deg[:3]])
 
     parent = orc.locate()
     lost = np.nonzero(parent < 0)[0]
-    if not ctx.check("child-inside-one-parent", lost.size == 0, mech=mech("child-not-inside-a-parent"), case=desc,
-                     marked=marked, cells=lambda: lost[:8], coords=lambda: Pc[:, tc[:, lost[0]]].T,
-                     exact=orc.exact):
+    if not gated(ctx, "child-inside-one-parent", lost.size == 0, lambda: geom_mech("child-not-inside-a-parent"),
+                 report_only_hit, case=desc, marked=marked, cells=lambda: lost[:8],
+                 coords=lambda: Pc[:, tc[:, lost[0]]].T, exact=orc.exact):
         return None
     if not ok_deg:
         return None
     bad = orc.measure_defects()
-    ok_meas = ctx.check("children-measure-equals-parent", bad.size == 0, mech=mech("measure"), case=desc,
-                        marked=marked, parents=lambda: bad[:8],
+    ok_meas = gated(ctx, "children-measure-equals-parent", bad.size == 0, lambda: geom_mech("measure"),
+                    report_only_hit, case=desc, marked=marked, parents=lambda: bad[:8],
                         children_total=lambda: [str(orc.children_total[b]) for b in bad[:4]],
                         parent_measure=lambda: [str(orc.absdetp[b]) for b in bad[:4]])
     nchild = np.bincount(parent, minlength=orc.ntp)
@@ -320,16 +436,16 @@ def check_step(ctx, par: Snap, child, marked, records, desc, step=0, light=False
                 problems.append(("parent-boundary-facet-not-covered-exactly", pk, str(got), str(full)))
                 if len(problems) > 4:
                     break
-    ctx.check("conforming-facets", not problems, mech=lambda: mech(problems[0][0]), case=desc, marked=marked,
-              problems=lambda: problems[:5], exact=orc.exact)
+    gated(ctx, "conforming-facets", not problems, lambda: conformity_mech(problems[0][0]), report_only_hit,
+          case=desc, marked=marked, problems=lambda: problems[:5], exact=orc.exact)
 
     # ---- hanging nodes
     if light and orc.ntc > 6000:
         ctx.drop("hanging-node-scan-skipped-large-mesh")
     else:
         hang = orc.vertices_inside_edges()
-        ctx.check("no-hanging-nodes", not hang, mech=mech("hanging-node"), case=desc, marked=marked,
-                  pairs=lambda: hang[:6])
+        gated(ctx, "no-hanging-nodes", not hang, lambda: conformity_mech("hanging-node"), report_only_hit,
+              case=desc, marked=marked, pairs=lambda: hang[:6])
 
     # ---- subdomains
     nowarn_sub = not any("subdomains invalidated" in r for r in records)
@@ -421,6 +537,8 @@ def check_step(ctx, par: Snap, child, marked, records, desc, step=0, light=False
         ctx.reached("second-order-adaptive-steps" if marked is not None else "second-order-uniform-steps")
 
     # ---- evidence
+    if par.unsorted:
+        ctx.reached("unsorted-triangle-parent:" + how)
     if marked is not None:
         nm = int(marked.size)
         mc = marked_class(nm, orc.ntp)
@@ -445,6 +563,8 @@ def check_step(ctx, par: Snap, child, marked, records, desc, step=0, light=False
             if depth >= 4:
                 ctx.reached(("tri" if d == 2 else "tet") + "-closure-propagated-depth>=4")
     orc.nchild = nchild
+    if report_only_hit:
+        return None          # the child is not a mesh the next step of a history could start from
     return orc
 
 
@@ -488,11 +608,46 @@ def canon(mesh):
     return sorted(cells), subs
 
 
-def marked_variant(rng, marked, which=None):
-    """The same set in another order / container / dtype."""
+NFORMS = 16
+
+
+def marked_variant(rng, marked, which=None, nt=None):
+    """The same set in another order / container / dtype.  `nt` (number of cells) enables the forms that need it."""
     m = np.array(marked, dtype=np.int64)
     m = m[rng.permutation(m.size)]
-    which = int(rng.integers(0, 9)) if which is None else which
+    which = int(rng.integers(0, NFORMS)) if which is None else which
+    if which == 9:
+        return tuple(int(i) for i in m), "tuple"
+    if which == 10:
+        return tuple(np.int32(i) for i in m), "tuple-of-numpy-scalars"
+    if which == 11:
+        return m.reshape(-1, 1), "column-2d"
+    if which == 12:
+        top = int(m.max()) if m.size else 0
+        dt = np.int16 if top < 2 ** 15 else np.int32
+        return m.astype(dt), np.dtype(dt).name
+    if which == 13:
+        top = int(m.max()) if m.size else 0
+        dt = np.uint8 if top < 2 ** 8 else (np.uint16 if top < 2 ** 16 else np.uint64)
+        return m.astype(dt), np.dtype(dt).name
+    if which == 14:
+        srt = np.sort(m)
+        steps = np.unique(np.diff(srt))
+        if srt.size == 0:
+            return range(0), "range"
+        if srt.size == 1:
+            return range(int(srt[0]), int(srt[0]) + 1), "range"
+        if steps.size == 1:
+            r = range(int(srt[0]), int(srt[-1]) + 1, int(steps[0]))
+            return (r if rng.random() < 0.5 else r[::-1]), "range"
+        return [np.int64(i) for i in m], "list-of-numpy-scalars"
+    if which == 15:
+        if nt is None:
+            return np.sort(m).astype(np.int64), "sorted-int64"
+        mask = np.zeros(nt, dtype=bool)
+        mask[m] = True
+        mask.setflags(write=False)
+        return np.nonzero(mask[:])[0], "nonzero-of-read-only-mask"
     if which >= 7 and m.size:
         # the same *set* with some cells listed more than once (e.g. f2t[0, facets] of several facets of one cell)
         rep = np.concatenate([m, m[rng.integers(0, m.size, size=int(rng.integers(1, m.size + 2)))]])
@@ -518,7 +673,7 @@ def marked_variant(rng, marked, which=None):
 
 
 def check_order_independence(ctx, mesh, marked, child, rng, desc):
-    alt, form = marked_variant(rng, marked)
+    alt, form = marked_variant(rng, marked, nt=int(mesh.t.shape[1]))
     child2, _ = call_refined(mesh, alt)
     c1, s1 = canon(child)
     c2, s2 = canon(child2)
@@ -566,6 +721,79 @@ def with_tags(rng, m, sub=True, bnd=True):
             bnds["O"] = m.facets_around(m.subdomains["S"])
         m = m.with_boundaries(bnds)
     return m
+
+
+# ---------------------------------- parents with unused vertices / unsorted cells
+# set by the families `unused-vertex` / `unsorted-tri` around a run of another family's case
+VARIANT = {"unused": None, "unsorted": None, "affine": None}
+
+
+def add_unused_vertex(rng, mesh, where):
+    """The same first-order mesh with ONE more point that no cell refers to: "trailing" = after all others
+    (max(t) + 1 < number of points), "interior" = at a random position before the last used vertex (cells
+    renumbered).  The point lies outside the bounding box (dyadic if the mesh is), so that no vertex a bisection
+    creates can coincide with it."""
+    p = np.asarray(mesh.p, dtype=float)
+    t = np.asarray(mesh.t).astype(np.int64)
+    d, nv = p.shape
+    lo, hi = p.min(axis=1), p.max(axis=1)
+    ext = float((hi - lo).max())
+    x = hi + ext * np.array([1.0, 0.5, 0.25])[:d]
+    if where == "trailing":
+        p2, t2 = np.hstack((p, x[:, None])), t
+    else:
+        j = int(rng.integers(0, nv))
+        p2 = np.hstack((p[:, :j], x[:, None], p[:, j:]))
+        t2 = t + (t >= j)
+    kw = {"sort_t": False} if (type(mesh).__name__ == "MeshTri1" and not mesh.sort_t) else {}
+    return type(mesh)(p2, t2, **kw)
+
+
+def unsorted_triangles(rng, mesh, how):
+    """MeshTri1 whose cells keep the local vertex order given (sort_t=False: what loaded meshes, oriented() and
+    from_mesh results look like): "permuted" = an independent random permutation per cell, "oriented" = the
+    library's own oriented().  Returns None when the constructor did not keep the order."""
+    p = np.asarray(mesh.p, dtype=float)
+    t = np.asarray(mesh.t).astype(np.int64).copy()
+    if how == "oriented":
+        m = mesh.oriented()
+        return m if (not m.sort_t and (np.diff(np.asarray(m.t), axis=0) < 0).any()) else None
+    for c in range(t.shape[1]):
+        t[:, c] = t[rng.permutation(3), c]
+    if not (np.diff(t, axis=0) < 0).any():
+        t[:2, 0] = t[:2, 0][::-1]
+    m = type(mesh)(p, t, sort_t=False)
+    return m if np.array_equal(np.asarray(m.t), t) else None
+
+
+def variant(ctx, rng, mesh):
+    """Hook of every first-order family: identity unless the case runs inside one of the variant families.
+    Returns (mesh, suffix for the description)."""
+    out = ""
+    if G.order_of(mesh) != 1:
+        return mesh, out
+    if VARIANT["unsorted"] and type(mesh).__name__ == "MeshTri1":
+        m = unsorted_triangles(rng, mesh, VARIANT["unsorted"])
+        if m is None:
+            ctx.drop("unsorted-variant-not-applicable")      # e.g. oriented() of a mesh whose sorted cells are all CCW
+        else:
+            mesh = m
+            out += "-unsorted-" + VARIANT["unsorted"]
+            ctx.reached("parent-with-unsorted-cells:" + VARIANT["unsorted"])
+    if VARIANT["affine"]:
+        e, q = VARIANT["affine"]
+        p = np.asarray(mesh.p, dtype=float) * 2.0 ** e
+        if q is not None:
+            p = p + rng.choice([-1.0, 1.0], size=(p.shape[0], 1)) * 2.0 ** q
+        kw = {"sort_t": False} if (type(mesh).__name__ == "MeshTri1" and not mesh.sort_t) else {}
+        mesh = type(mesh)(p, np.asarray(mesh.t).astype(np.int64), **kw)
+        out += "-scaled-2^%d" % e + ("" if q is None else "-shifted-2^%d" % q)
+        ctx.reached("parent-scaled-2^%d" % e if q is None else "parent-shifted-2^>=20")
+    if VARIANT["unused"]:
+        mesh = add_unused_vertex(rng, mesh, VARIANT["unused"])
+        out += "-unused-vertex-" + VARIANT["unused"]
+        ctx.reached("parent-given-an-unused-vertex")
+    return mesh, out
 
 
 # ------------------------------------------------------------------ tiny meshes
@@ -725,6 +953,8 @@ def exhaustive_case(kind):
         if k % 2 == 1:
             mesh = renumbered(rng, mesh, kind)
             name += "-renumbered"
+        mesh, suffix = variant(ctx, rng, mesh)
+        name += suffix
         if k % 3 != 2:
             mesh = with_tags(rng, mesh)
             name += "-tagged"
@@ -747,9 +977,10 @@ def exhaustive_case(kind):
             if marked.size == 0:
                 # the empty marked set in the containers a caller may hand over
                 for form, fname in (([], "empty-list"), (np.zeros(0, dtype=np.int32), "empty-int32"),
-                                    (np.zeros(0, dtype=np.int64)[::2], "empty-view"), ((), "empty-tuple")):
-                    if isinstance(form, tuple):
-                        form = list(form)
+                                    (np.zeros(0, dtype=np.int64)[::2], "empty-view"), ((), "empty-tuple"),
+                                    (range(0), "empty-range"), (np.zeros((0, 1), dtype=np.int64), "empty-column-2d"),
+                                    (np.zeros(0, dtype=np.uint8), "empty-uint8"),
+                                    (np.nonzero(np.zeros(nt, dtype=bool))[0], "empty-nonzero-of-mask")):
                     one_step(ctx, mesh, marked, dict(desc, form=fname), rng, step=0, form=form)
                 ctx.reached("empty-marked-set-in-every-container")
             if child is not None and marked.size and child.t.shape[1] <= 8:
@@ -820,12 +1051,70 @@ def tet_buffer_overflow(e, mesh):
                   "points_so_far": nv, "point_capacity": int(p.shape[1]), "parent_cells": int(mesh.t.shape[1])}
 
 
+def tet_noise_regime(mesh):
+    """MeshTet1._adaptive_sort_mesh breaks ties between equally long edges by adding ABSOLUTE noise 1e-10 * U[0, 1)
+    to every coordinate.  Returns "rounded-away" when the noise is (nearly) invisible in the coordinates
+    (ulp(max |x|) >= 2^-36, i.e. |x| >= 2^16; it vanishes completely from |x| >= 2^20: exact ties stay ties and edge
+    (0, 1) is bisected whether or not it is the longest), "dominant" when it is not small against the edges
+    (shortest edge <= 2^14 * 1e-10 = 1.6e-6: 'longest' becomes a matter of chance), else None."""
+    if type(mesh).__name__ not in ("MeshTet1", "MeshTet2"):
+        return None
+    P = np.asarray(mesh.p)[:, :nverts(mesh)]
+    t = np.asarray(mesh.t)[:4]
+    if float(np.spacing(np.abs(P).max())) >= 2.0 ** -36:
+        return "rounded-away"
+    hmin = min(float(np.sqrt(((P[:, t[i]] - P[:, t[j]]) ** 2).sum(axis=0)).min())
+               for i in range(4) for j in range(i + 1, 4))
+    if hmin <= 2.0 ** 14 * 1e-10:
+        return "dominant"
+    return None
+
+
+def tet_tie_break_failure(e, mesh):
+    """Predicate of the mechanism "the absolute 1e-10 tie-break noise of MeshTet1._adaptive_sort_mesh does not do
+    its job on this parent".  All of: (1) the parent is in one of the two regimes of tet_noise_regime; (2) the call
+    ended in the library's own `assert len(np.unique(p[:, :nv].T, axis=0)) == nv` inside MeshTet1._adaptive (an edge
+    was split a second time: the bisected edges were not the longest ones) or in the harness' ClosureRunaway.
+    Returns (mech, facts) or (None, reason)."""
+    regime = tet_noise_regime(mesh)
+    if regime is None:
+        return None, "parent at regular scale"
+    facts = {"regime": regime, "max_abs_coordinate": float(np.abs(np.asarray(mesh.p)).max()),
+             "rounds": OBS["tet_rounds"], "parent_cells": int(mesh.t.shape[1])}
+    if isinstance(e, ClosureRunaway):
+        return "tet-adaptive-tie-break-noise-is-absolute-1e-10:closure-runaway", dict(facts, runaway=str(e))
+    if not isinstance(e, AssertionError):
+        return None, "another exception"
+    import traceback
+    last = traceback.extract_tb(e.__traceback__)[-1]
+    if not (last.filename.endswith("mesh_tet_1.py") and last.name == "_adaptive" and "np.unique(p[:, :nv]" in (last.line or "")):
+        return None, "another assertion"
+    return "tet-adaptive-tie-break-noise-is-absolute-1e-10:duplicate-point-assertion", facts
+
+
 def one_step(ctx, mesh, marked, desc, rng, step=0, order_check=False, form=None, light=False):
     """Refine adaptively with `marked` (sorted unique int64 array) and judge the step."""
     par = Snap(mesh)
     arg = marked if form is None else form
     try:
         child, records = call_refined(mesh, arg)
+    except (AssertionError, ClosureRunaway) as e:
+        mech, facts = tet_tie_break_failure(e, mesh)
+        if mech is None:
+            if isinstance(e, ClosureRunaway):
+                ctx.check("valid-mesh", False, mech="tet-adaptive-closure-runaway:regular-scale", case=desc,
+                          error=str(e), marked=marked, p=lambda: np.asarray(mesh.p)[:, :40],
+                          t=lambda: np.asarray(mesh.t)[:, :40])
+                return None
+            raise
+        if mech in REPORT_ONLY:
+            ctx.tolerated("valid-mesh")
+            ctx.reached("report-only:" + mech)
+            ctx.notes.setdefault("report_only:" + mech, {"case": repr(desc)[:600], "facts": facts, "marked": marked.tolist()[:32]})
+            return None
+        ctx.check("valid-mesh", False, mech=mech, case=desc, facts=facts, marked=marked,
+                  p=lambda: np.asarray(mesh.p)[:, :40], t=lambda: np.asarray(mesh.t)[:, :40])
+        return None
     except ValueError as e:
         is_overflow, facts = tet_buffer_overflow(e, mesh)
         if not is_overflow:
@@ -928,10 +1217,13 @@ def random_case(kind):
             shift = rng.integers(-32, 33, size=(mesh.p.shape[0], 1)).astype(float) if e < 0 else 0.0
             mesh = type(mesh)(np.asarray(mesh.p) * 2.0 ** e + shift, np.asarray(mesh.t).astype(np.int64))
             mc.desc = dict(mc.desc, scaled_by=f"2^{e}", shifted=bool(e < 0))
+        mesh, suffix = variant(ctx, rng, mesh)
+        if suffix:
+            mc.desc = dict(mc.desc, variant=suffix)
         mesh = with_tags(rng, mesh, sub=(k % 5 != 4), bnd=(k % 3 != 2))
         nt = mesh.t.shape[1]
         marked = pick_marked(rng, nt)
-        form, fname = marked_variant(rng, marked)
+        form, fname = marked_variant(rng, marked, nt=nt)
         desc = {"family": "rand-" + kind, "gen": mc.desc, "ncells": nt, "marked": marked, "form": fname}
         child = one_step(ctx, mesh, marked, desc, rng, step=0, order_check=True, form=form)
         ctx.sample({"class": type(mesh).__name__, "gen": mc.desc, "marked": marked, "form": fname,
@@ -978,6 +1270,10 @@ def history_case(kind, order=1):
             mc.desc = {"tiny": name}
         if order == 2:
             mesh = G.mesh_class(kind, 2).from_mesh(mesh)
+        else:
+            mesh, suffix = variant(ctx, rng, mesh)
+            if suffix:
+                mc.desc = dict(mc.desc, variant=suffix)
         mesh = with_tags(rng, mesh)
         cap = ctx.scale({"line": 1000, "tri": 2000, "tet": 1200}[kind], {"line": 4000, "tri": 6000, "tet": 3000}[kind])
         if order == 2:
@@ -999,6 +1295,7 @@ def history_case(kind, order=1):
                 choice = "one"
             desc = {"family": f"hist-{kind}{order}", "gen": mc.desc, "trace": list(trace), "ncells": nt,
                     "choice": choice}
+            own_tag = None
             if choice == "uniform":
                 child = uniform_step(ctx, mesh, desc, step, light=True)
                 kinds_seen.add("u")
@@ -1022,19 +1319,26 @@ def history_case(kind, order=1):
                         marked = rng.choice(nt, size=1)
                 elif choice == "subdomain" and mesh.subdomains:
                     name = sorted(mesh.subdomains)[int(rng.integers(len(mesh.subdomains)))]
-                    marked = np.unique(np.asarray(mesh.subdomains[name]).ravel())
-                    marked = marked[(marked >= 0) & (marked < nt)]
+                    own_tag = mesh.subdomains[name]
+                    marked = np.unique(np.asarray(own_tag).ravel())
+                    if marked.size and (marked.min() < 0 or marked.max() >= nt):
+                        marked, own_tag = marked[(marked >= 0) & (marked < nt)], None
                     if not marked.size or marked.size * 3 > cap:
-                        marked = rng.choice(nt, size=1)
+                        marked, own_tag = rng.choice(nt, size=1), None
                 elif choice == "all":
                     marked = np.arange(nt)
                 else:
                     marked = rng.choice(nt, size=1)
                 marked = np.unique(np.asarray(marked, dtype=np.int64))
                 if nt + 6 * marked.size > cap and marked.size > 1:
-                    marked = marked[: max(1, (cap - nt) // 6)]
+                    marked, own_tag = marked[: max(1, (cap - nt) // 6)], None
                 desc["marked"] = marked
-                form, fname = marked_variant(rng, marked)
+                form, fname = marked_variant(rng, marked, nt=nt)
+                if choice == "subdomain" and own_tag is not None and rng.random() < 0.5:
+                    # the mesh's own tag array object is the marked set (remapped by the same call)
+                    form, fname = own_tag, "own-subdomain-array-object"
+                    ctx.reached("marked-is-own-subdomain-array")
+                desc["form"] = fname
                 child = one_step(ctx, mesh, marked, desc, rng, step=step, form=form, light=True,
                                  order_check=(step == nsteps // 2))
                 kinds_seen.add("a")
@@ -1061,6 +1365,71 @@ def history_case(kind, order=1):
         ctx.sample({"class": type(mesh).__name__, "gen": mc.desc, "trace": trace, "final_cells": int(mesh.t.shape[1])},
                    per_family=1)
     return run
+
+
+def deep_case(ctx, k):
+    """25-40 consecutive adaptive steps towards ONE point: every step marks all cells whose closure contains the
+    point ("vertex" / "edge-midpoint") or the single cell at the point in a fixed direction ("one-cell": the
+    same geometric corner re-marked every step).  Cells of size 2^-30 h and smaller sit next to cells of size h;
+    coordinates stay dyadic with < 52 significant bits, so every step is judged exactly.  Stops at the cell budget."""
+    rng = ctx.rng()
+    kind = ("tri", "tet", "line")[k % 3]
+    mode = ("vertex", "one-cell", "edge-midpoint")[(k // 3) % 3]
+    fn, ndirected = TINY[kind]
+    mesh, name = fn(rng, int(rng.integers(1, ndirected + NRANDOM_TINY[kind])))
+    mesh, suffix = variant(ctx, rng, mesh)
+    if k % 2:
+        mesh = with_tags(rng, mesh, bnd=False)
+    P, t = np.asarray(mesh.p), np.asarray(mesh.t)
+    c0 = int(rng.integers(t.shape[1]))
+    v0 = P[:, t[0, c0]].copy()
+    if mode == "edge-midpoint" and kind != "line":
+        v0 = 0.5 * (P[:, t[0, c0]] + P[:, t[1, c0]])
+    u = P[:, t[:, c0]].mean(axis=1) - v0                      # direction into cell c0
+    depth = ctx.scale(30, 40)
+    cap = ctx.scale({"line": 400, "tri": 900, "tet": 700}[kind], {"line": 800, "tri": 3000, "tet": 2500}[kind])
+    trace, done, hmin0 = [], 0, float(R.edge_hmax(P, t[:P.shape[0] + 1]).min())
+    for step in range(depth):
+        nt = mesh.t.shape[1]
+        cand = cells_containing(mesh, v0)
+        if not cand.size:
+            ctx.drop("deep-history-point-lost")
+            break
+        if mode == "one-cell":
+            cen = np.asarray(mesh.p)[:, np.asarray(mesh.t)[:, cand]].mean(axis=1) - v0[:, None]
+            cand = cand[[int(np.argmax((cen * u[:, None]).sum(axis=0) / np.linalg.norm(cen, axis=0)))]]
+        marked = np.unique(cand.astype(np.int64))
+        if nt + 8 * marked.size > cap:
+            break
+        Pn = np.asarray(mesh.p)
+        if R.min_bits(Pn, Pn) is None:
+            # the next midpoints would not be exact doubles any more: cells of a few thousand ulp are the business
+            # of the tolerance family, not of this one
+            ctx.drop("deep-history-stopped-at-the-exactness-limit")
+            break
+        desc = {"family": "deep", "mesh": name + suffix, "mode": mode, "point": v0.tolist(), "step": step,
+                "ncells": nt, "marked": marked}
+        child = one_step(ctx, mesh, marked, desc, rng, step=step, light=True, order_check=(step == depth // 2))
+        if child is None:
+            ctx.drop("history-aborted-after-failed-step")
+            break
+        if OBS["tet_rounds"] > ctx.notes.get("max_tet_rounds_deep", 0):
+            ctx.notes["max_tet_rounds_deep"] = OBS["tet_rounds"]
+        mesh = child
+        if mesh.subdomains is None and k % 2:
+            mesh = with_tags(rng, mesh, bnd=False)
+        done += 1
+        trace.append(int(marked.size))
+    hmin = float(R.edge_hmax(np.asarray(mesh.p), np.asarray(mesh.t)[:P.shape[0] + 1]).min())
+    ratio = hmin0 / hmin
+    for thr in (10, 20, 30):
+        if ratio >= 2.0 ** thr:
+            ctx.reached(f"deep-history-smallest-cell<=2^-{thr}h:{kind}")
+    for thr in (16, 25, 40):
+        if done >= thr:
+            ctx.reached(f"deep-history-steps>={thr}")
+    ctx.sample({"class": type(mesh).__name__, "mesh": name, "mode": mode, "steps": done,
+                "final_cells": int(mesh.t.shape[1]), "log2_size_ratio": float(np.log2(ratio))}, per_family=2)
 
 
 # ---------------------------------------------------------------- second order
@@ -1113,8 +1482,11 @@ def tolerance_case(ctx, k):
         Rm, shift = G.rigid_motion(rng, p.shape[0])
         p = (Rm @ p) / 3.0 + shift * np.sqrt(2.0)
         mesh = type(mc.mesh)(p, t)
-        mesh = with_tags(rng, mesh)
         desc0 = dict(mc.desc, transform="pythagorean-rotation/3+sqrt2-shift")
+        mesh, suffix = variant(ctx, rng, mesh)
+        if suffix:
+            desc0["variant"] = suffix
+        mesh = with_tags(rng, mesh)
     for step in range(ctx.scale(2, 3)):
         nt = mesh.t.shape[1]
         if nt > ctx.scale(2500, 8000):
@@ -1140,6 +1512,106 @@ def check_theta(ctx, fn, est, theta, mx):
     ctx.check("adaptive-theta-definition", ok, mech="adaptive_theta-differs-from-maximum-strategy",
               est=est[:32], theta=theta, max=mx, got=g[:32], expected=expected[:32])
     return g.astype(np.int64) if ok else None
+
+
+def check_theta_form(ctx, fn, est64, form, fname, theta, mx):
+    """adaptive_theta on the estimator in another container / dtype / shape.  The definition is decided in exact
+    rational arithmetic on the values the form really holds; entries within a few ulp (of the form's dtype) of the
+    threshold theta * max may fall on either side (the library may multiply in float32); everything else is
+    demanded exactly.  Returns the marked indices or None."""
+    from fractions import Fraction
+    vals = np.asarray(form)
+    try:
+        got = fn(form, theta=theta) if mx is None else fn(form, theta=theta, max=mx)
+    except TypeError as e:
+        if isinstance(form, (list, tuple)) and mx is not None and "not supported between" in str(e):
+            # a Python sequence is compared with the Python float theta * max: the helper is written for arrays
+            # (with max=None NumPy does the comparison and sequences work); counted, not judged
+            ctx.tolerated("adaptive-theta-definition")
+            ctx.reached("theta-sequence-with-explicit-max-raises-TypeError")
+            return None
+        raise
+    flat = vals.reshape(-1) if (vals.ndim == 2 and vals.shape[1] == 1) else vals
+    fr = [Fraction(v) for v in flat.tolist()]
+    ref_max = max(fr) if mx is None else Fraction(mx)
+    thr = Fraction(theta) * ref_max
+    ulp = Fraction(1, 2 ** 50) if vals.dtype.kind in "iub" or vals.dtype.itemsize >= 8 else \
+        Fraction(4 * float(np.finfo(vals.dtype).eps)).limit_denominator(2 ** 60)
+    band = abs(thr) * ulp
+    must = {i for i, e in enumerate(fr) if e > thr + band}
+    may = {i for i, e in enumerate(fr) if e > thr - band}
+    g = np.asarray(got)
+    ok = g.ndim == 1 and np.issubdtype(g.dtype, np.integer)
+    gl = g.tolist() if ok else None
+    ok = ok and gl == sorted(set(gl)) and must <= set(gl) <= may
+    ctx.check("adaptive-theta-definition", ok, mech="adaptive_theta-differs-from-maximum-strategy:" + fname,
+              form=fname, est=est64[:32], theta=theta, max=mx, got=g.ravel()[:32], must=sorted(must)[:32],
+              undecided=sorted(may - must)[:8], shape=getattr(g, "shape", None), dtype=str(getattr(g, "dtype", None)))
+    ctx.reached("theta-input-form:" + fname)
+    return g.astype(np.int64) if ok else None
+
+
+def theta_forms_case(ctx, k):
+    """The estimator in the forms callers hold it in: Python list / tuple, integer and float32 arrays, a one-column
+    2-D array, a read-only view, the output of Functional.elemental; theta given as int; max=0.  Non-negative,
+    finite estimators only.  The result drives a refinement."""
+    from skfem.utils import adaptive_theta
+    import skfem
+    rng = ctx.rng()
+    kind = ("tri", "tet", "line")[k % 3]
+    fn_tiny, ndirected = TINY[kind]
+    mesh, name = fn_tiny(rng, int(rng.integers(1, ndirected + NRANDOM_TINY[kind])))
+    if k % 2:
+        mesh, _ = call_refined(mesh, 1)
+    mesh = with_tags(rng, mesh)
+    nt = int(mesh.t.shape[1])
+    style = (k // 3) % 4
+    if style == 0:
+        est = rng.random(nt)
+    elif style == 1:
+        est = rng.integers(0, 5, size=nt).astype(float)                  # ties and zeros
+    elif style == 2:
+        est = measures(mesh) * (1 + rng.integers(0, 3, size=nt))
+    else:
+        # a real elementwise functional: h^2 * integral of (x_0 - c)^2 over the cell
+        from skfem import Basis, Functional
+        elem = {"tri": skfem.ElementTriP1, "tet": skfem.ElementTetP1, "line": skfem.ElementLineP1}[kind]()
+        c = float(np.asarray(mesh.p)[0].mean())
+
+        @Functional
+        def eta(w):
+            return w.h ** 2 * (w.x[0] - c) ** 2
+        est = eta.elemental(Basis(mesh, elem))
+        ctx.reached("theta-estimator-from-Functional.elemental")
+        ctx.check("adaptive-theta-definition", np.asarray(est).shape in ((nt,), (nt, 1)),
+                  mech="elemental-estimator-shape", shape=np.asarray(est).shape, ncells=nt)
+    est64 = np.asarray(est, dtype=float).reshape(-1)
+    if not np.isfinite(est64).all() or (est64 < 0).any() or est64.max() == 0:
+        raise Skip("estimator outside the judged inputs")
+    ro = est64.copy()
+    ro.setflags(write=False)
+    top = float(est64.max())
+    ints = np.round(est64 / top * 1000).astype(np.int64)
+    forms = [(est, "as-produced") if style == 3 else (est64[::-1][::-1], "float64-view"),
+             (est64.tolist(), "list"), (tuple(est64.tolist()), "tuple"),
+             (est64.astype(np.float32), "float32"), (est64.reshape(-1, 1), "column-2d"), (ro, "read-only"),
+             (ints, "int64"), (ints.astype(np.int32).tolist(), "list-of-int"), (ints.astype(np.uint16), "uint16")]
+    marked = None
+    for form, fname in forms:
+        for theta, mx in ((0.5, None), (float(rng.random()), None), (1, None), (0, None),
+                          (0.5, 0), (0.5, 0.0), (float(rng.choice([0.25, 0.75])), float(np.asarray(form).max()) / 2)):
+            got = check_theta_form(ctx, adaptive_theta, est64, form, fname, theta, mx)
+            if got is not None and theta == 0.5 and mx is None and fname in ("list", "float32", "column-2d", "int64"):
+                marked = (got, fname)
+                # the helper's output, untouched, drives the refinement
+                raw = adaptive_theta(form, theta=0.5)
+                par = Snap(mesh)
+                child, rec = call_refined(mesh, raw)
+                check_step(ctx, par, child, np.unique(got), rec,
+                           {"family": "theta-forms", "mesh": name, "ncells": nt, "form": fname, "marked": got}, step=0)
+                ctx.reached("theta-output-refined:" + fname)
+    ctx.sample({"class": type(mesh).__name__, "mesh": name, "style": style, "ncells": nt,
+                "marked": None if marked is None else marked[0]}, per_family=1)
 
 
 def theta_case(ctx, k):
@@ -1170,6 +1642,7 @@ def theta_case(ctx, k):
         mc = G.tri_mesh(rng, n=int(rng.integers(6, 20)))
         m = mc.mesh
         est = measures(m) * (1 + rng.integers(0, 3, size=m.t.shape[1]))
+    m, _ = variant(ctx, rng, m)
     marked = check_theta(ctx, adaptive_theta, est, 0.5, None)
     if marked is not None:
         # adaptive_theta returns int32 indices: pass them on untouched
@@ -1179,6 +1652,131 @@ def theta_case(ctx, k):
         check_step(ctx, par, child, np.unique(marked), rec, {"family": "theta", "ncells": int(m.t.shape[1]),
                                                              "marked": marked}, step=0)
         ctx.reached("theta-output-refined")
+
+
+# ------------------------------------------------------------ marked containers
+def container_case(ctx, k):
+    """Every container / dtype a caller may hand over as the marked set, on every class, deterministically:
+    k -> (class, form).  The last form is the mesh's OWN subdomain array object (the tag the same call remaps)."""
+    rng = ctx.rng()
+    kind = ("line", "tri", "tet")[k % 3]
+    which = (k // 3) % (NFORMS + 1)
+    rep = k // (3 * (NFORMS + 1))
+    if rep % 2 == 0:
+        fn, ndirected = TINY[kind]
+        mesh, name = fn(rng, int(rng.integers(1, ndirected + NRANDOM_TINY[kind])))
+        desc0 = {"tiny": name}
+    else:
+        mc = random_mesh(rng, kind, ctx)
+        mesh, desc0 = mc.mesh, mc.desc
+    mesh = with_tags(rng, mesh)
+    nt = int(mesh.t.shape[1])
+    if which == NFORMS:
+        form = mesh.subdomains[("S", "T")[rep % 2]]
+        marked = np.unique(np.asarray(form)).astype(np.int64)
+        fname = "own-subdomain-array-object"
+    else:
+        if which == 14:      # an arithmetic progression, so that a range can express it
+            a = int(rng.integers(0, nt))
+            marked = np.arange(a, nt, int(rng.integers(1, 4)), dtype=np.int64)[:int(rng.integers(1, 6))]
+        else:
+            marked = pick_marked(rng, min(nt, 256), how=str(rng.choice(["one", "pair", "few", "half", "all-but-one"])))
+        form, fname = marked_variant(rng, marked, which=which, nt=nt)
+    desc = {"family": "containers", "gen": desc0, "ncells": nt, "marked": marked, "form": fname}
+    one_step(ctx, mesh, marked, desc, rng, step=0, order_check=True, form=form)
+    ctx.reached("marked-container:" + fname)
+    ctx.sample({"class": type(mesh).__name__, "form": fname, "type": type(form).__name__,
+                "marked": marked}, per_family=2)
+
+
+# -------------------------------------------------- unused vertices, every family
+def _variant_uniform(kind):
+    """Uniform steps (twice: the child inherits the unused vertex) and one adaptive step after them."""
+    def run(ctx, k):
+        rng = ctx.rng()
+        fn, ndirected = TINY[kind]
+        mesh, name = fn(rng, (1 + k) % (ndirected + NRANDOM_TINY[kind]))
+        mesh, suffix = variant(ctx, rng, mesh)
+        mesh = with_tags(rng, mesh)
+        desc = {"family": "variant-uniform", "mesh": name + suffix, "ncells": int(mesh.t.shape[1])}
+        for step in range(2):
+            mesh = uniform_step(ctx, mesh, dict(desc, step=step), step)
+            if mesh is None or mesh.t.shape[1] > 600:
+                return
+        one_step(ctx, mesh, pick_marked(rng, mesh.t.shape[1], how="few"), dict(desc, step=2), rng, step=2)
+    return run
+
+
+# (family function, case index of that family as a function of the repetition j)
+UNUSED_RUNS = [
+    (exhaustive_case("line"), lambda j: 3 + j), (exhaustive_case("tri"), lambda j: 4 + j),
+    (exhaustive_case("tet"), lambda j: 4 + j),
+    (random_case("line"), lambda j: j), (random_case("tri"), lambda j: j), (random_case("tet"), lambda j: j),
+    (history_case("line"), lambda j: j), (history_case("tri"), lambda j: j), (history_case("tet"), lambda j: j),
+    (tolerance_case, lambda j: 4 * j), (tolerance_case, lambda j: 4 * j + 1), (tolerance_case, lambda j: 4 * j + 2),
+    (theta_case, lambda j: 2 * j), (theta_case, lambda j: 2 * j + 1),
+    (_variant_uniform("line"), lambda j: j), (_variant_uniform("tri"), lambda j: j), (_variant_uniform("tet"), lambda j: j),
+]
+
+
+def unused_vertex_case(ctx, k):
+    """Every workload above once more on a parent with a point that no cell uses (what Mesh.load of a mixed
+    file, remove_elements or m1 @ m2 leave behind), trailing and interior; judged by the same clauses (the child
+    legitimately inherits that point)."""
+    VARIANT["unused"] = ("trailing", "interior")[k % 2]
+    fn, index = UNUSED_RUNS[(k // 2) % len(UNUSED_RUNS)]
+    try:
+        fn(ctx, index(k // (2 * len(UNUSED_RUNS))))
+    finally:
+        VARIANT["unused"] = None
+
+
+# (family function, case index as a function of the repetition j); tetrahedra first: their edge sorting has
+# the absolute noise, needle tetrahedra are random_case("tet") with k % 4 == 3
+SCALE_RUNS = [(exhaustive_case("tet"), lambda j: 2 + j), (random_case("tet"), lambda j: 4 * j + 3),
+              (history_case("tet"), lambda j: 2 * j), (history_case("tet"), lambda j: 2 * j + 1),
+              (random_case("tet"), lambda j: 4 * j), (exhaustive_case("tri"), lambda j: 9 + j),
+              (history_case("tri"), lambda j: j), (random_case("tri"), lambda j: 4 * j + 2),
+              (exhaustive_case("line"), lambda j: 2 + j), (history_case("line"), lambda j: j)]
+AFFINE = [(-30, None), (0, "far"), (-6, "far")]
+
+
+def scales_case(ctx, k):
+    """Coordinate magnitudes: cells of size 2^-30 (edges ~1e-9) and cells translated by +-2^20 .. +-2^24 on every
+    axis, still dyadic with few significant bits, so the oracle stays exact.  Same clauses; 8-12 step histories."""
+    e, q = AFFINE[k % len(AFFINE)]
+    if q == "far":
+        q = 20 + (k // len(AFFINE)) % 5
+    fn, index = SCALE_RUNS[(k // len(AFFINE)) % len(SCALE_RUNS)]
+    VARIANT["affine"] = (e, q)
+    try:
+        fn(ctx, index(k // (len(AFFINE) * len(SCALE_RUNS))))
+    finally:
+        VARIANT["affine"] = None
+
+
+# all tiny triangle meshes first (exhaustive subsets + two-step histories), then the other workloads
+NTINY_TRI = TINY["tri"][1] + NRANDOM_TINY["tri"]
+UNSORTED_RUNS = [(random_case("tri"), lambda j: j), (history_case("tri"), lambda j: j), (tolerance_case, lambda j: 4 * j),
+                 (theta_case, lambda j: 2 * j), (_variant_uniform("tri"), lambda j: j)]
+
+
+def unsorted_tri_case(ctx, k):
+    """MeshTri1 parents built with sort_t=False (cells in arbitrary local order, clockwise ones included) and the
+    results of oriented(): never sorted again by the class, so every table the refinement derives from t sees
+    the order given.  Same clauses."""
+    how = ("permuted", "oriented")[k % 5 == 4]
+    VARIANT["unsorted"] = how
+    try:
+        if k < NTINY_TRI or (k - NTINY_TRI) % (len(UNSORTED_RUNS) + 1) == len(UNSORTED_RUNS):
+            j = k if k < NTINY_TRI else NTINY_TRI + (k - NTINY_TRI) // (len(UNSORTED_RUNS) + 1)
+            exhaustive_case("tri")(ctx, j)
+        else:
+            r, j = (k - NTINY_TRI) % (len(UNSORTED_RUNS) + 1), (k - NTINY_TRI) // (len(UNSORTED_RUNS) + 1)
+            fn, index = UNSORTED_RUNS[r]
+            fn(ctx, index(j))
+    finally:
+        VARIANT["unsorted"] = None
 
 
 FAMILIES = [
@@ -1199,6 +1797,14 @@ FAMILIES = [
     Family("second-order", second_order_case, quick=16, thorough=640),
     Family("tolerance", tolerance_case, quick=16, thorough=640),
     Family("theta", theta_case, quick=12, thorough=360),
+    Family("theta-forms", theta_forms_case, quick=12, thorough=240),
+    Family("containers", container_case, quick=3 * (NFORMS + 1), thorough=3 * (NFORMS + 1) * 20),
+    Family("unused-vertex", unused_vertex_case, quick=2 * len(UNUSED_RUNS), thorough=2 * len(UNUSED_RUNS) * 16),
+    Family("deep", deep_case, quick=9, thorough=144, budget={"quick": 40, "thorough": 500}),
+    Family("scales", scales_case, quick=len(AFFINE) * len(SCALE_RUNS), thorough=len(AFFINE) * len(SCALE_RUNS) * 16,
+           budget={"quick": 45, "thorough": 500}),
+    Family("unsorted-tri", unsorted_tri_case, quick=NTINY_TRI + 2 * len(UNSORTED_RUNS), thorough=480,
+           exhaustive=True, budget={"quick": 40, "thorough": 500}),
 ]
 
 
